@@ -21,18 +21,25 @@ package hap
 
 //@ invoke "github.com/brutella/hc/hap.SecuredDevice.Name"(d) (s)
 //@   pure
+//@   ensures s == devname(d)
 //@ invoke "github.com/brutella/hc/hap.SecuredDevice.Pin"(d) (s)
 //@   pure
+//@   ensures s == devpin(d)
 //@ invoke "github.com/brutella/hc/hap.SecuredDevice.PrivateKey"(d) (k)
 //@   pure
+//@   ensures seq(k) == devpriv(d)
 //@ invoke "github.com/brutella/hc/hap.SecuredDevice.PublicKey"(d) (k)
 //@   pure
+//@   ensures seq(k) == devpub(d)
 //@ invoke "github.com/brutella/hc/hap.Device.Name"(d) (s)
 //@   pure
+//@   ensures s == devname(d)
 //@ invoke "github.com/brutella/hc/hap.Device.PrivateKey"(d) (k)
 //@   pure
+//@   ensures seq(k) == devpriv(d)
 //@ invoke "github.com/brutella/hc/hap.Device.PublicKey"(d) (k)
 //@   pure
+//@   ensures seq(k) == devpub(d)
 
 // ---- handlers of the pairing endpoints seen through their interfaces
 // pvshared(h): the X25519 shared secret a pair-verify handler currently holds (abstraction of the implementing type)
@@ -54,9 +61,10 @@ package hap
 //@   ensures answered: err == nil ==> out != nil && ref(out) > 0
 
 // ---- context (in-memory store shared by all connections), seen through its interface
+//@ spec func devOf(ref) ref
 //@ invoke "github.com/brutella/hc/hap.Context.GetSecuredDevice"(ctx) (d)
 //@   pure
-//@   ensures d != nil
+//@   ensures d != nil && ref(d) == devOf(ctx)
 
 // ---- sessions (C01, C03, C10)
 // sskey(c): the shared secret a secure session's keys were derived from.
